@@ -78,8 +78,18 @@ def main():
             sys.stdout.flush()
     finally:
         sh("git -C /repo checkout -- .")
-    res["caught_by"] = [c for c, e in res["checks"].items() if e["exit"] != 0]
-    json.dump(res, open(os.path.join(d, "result.json"), "w"), indent=1)
+    rp = os.path.join(d, "result.json")
+    if os.path.exists(rp):
+        try:
+            old = json.load(open(rp))
+            merged = dict(old.get("checks", {}))
+            merged.update(res["checks"])
+            res["checks"] = merged
+        except Exception:  # noqa
+            pass
+    res["caught_by"] = sorted(c for c, e in res["checks"].items() if e["exit"] != 0)
+    res["not_caught_by"] = sorted(c for c, e in res["checks"].items() if e["exit"] == 0)
+    json.dump(res, open(rp, "w"), indent=1)
 
 
 main()
